@@ -173,22 +173,36 @@ struct Done {
     mutations: u64,
 }
 
-fn explore_type(ft: &Ft, t: &mut Tally, values_n: &mut u64, mutations_n: &mut u64) {
+fn explore_type(ft: &Ft, aliens: &[Fv], t: &mut Tally, values_n: &mut u64, mutations_n: &mut u64) {
     let schema = schema_for(ft);
     let vals = values::valid_values(ft);
     for (vi, v) in vals.iter().enumerate() {
         *values_n += 1;
-        let desc = format!("valid#{vi}");
         t.distinct.push(util::fnv64(format!("{ft:?}|{v:?}").as_bytes()));
         for entry in [Entry::Set, Entry::TryFrom] {
-            let case = Case { ft, schema: &schema, value: v, desc: &desc, mutation_kind: "valid", recipe: None };
+            let case = Case {
+                ft,
+                schema: &schema,
+                value: v,
+                desc: &|| format!("valid#{vi}"),
+                mutation_kind: &|| "valid".to_string(),
+                mutated: false,
+                recipe: None,
+            };
             run_case(&case, entry, t);
         }
-        for (kind, mdesc, mv) in values::mutations(v) {
+        for m in values::mutations(v, aliens) {
             *mutations_n += 1;
-            let desc = format!("valid#{vi} {mdesc}");
             for entry in [Entry::Set, Entry::TryFrom] {
-                let case = Case { ft, schema: &schema, value: &mv, desc: &desc, mutation_kind: &kind, recipe: None };
+                let case = Case {
+                    ft,
+                    schema: &schema,
+                    value: &m.value,
+                    desc: &|| format!("valid#{vi} {}", m.desc()),
+                    mutation_kind: &|| m.kind(),
+                    mutated: true,
+                    recipe: None,
+                };
                 run_case(&case, entry, t);
             }
         }
@@ -204,6 +218,7 @@ fn run_level(run: &mut Run, name: &str, types: Vec<Ft>, deadline: Instant) -> bo
     for (i, ft) in types.into_iter().enumerate() {
         chunks[i % n_chunks].push(Work { ft });
     }
+    let aliens = values::aliens();
     let done = util::par_map(chunks, threads, |chunk| {
         let mut d = Done { tally: Tally::default(), types_done: 0, types_skipped: 0, values: 0, mutations: 0 };
         for w in &chunk {
@@ -211,7 +226,7 @@ fn run_level(run: &mut Run, name: &str, types: Vec<Ft>, deadline: Instant) -> bo
                 d.types_skipped += 1;
                 continue;
             }
-            explore_type(&w.ft, &mut d.tally, &mut d.values, &mut d.mutations);
+            explore_type(&w.ft, &aliens, &mut d.tally, &mut d.values, &mut d.mutations);
             d.types_done += 1;
         }
         d
@@ -254,7 +269,15 @@ fn main() {
         let mut t = Tally::default();
         let desc = r["how"].as_str().unwrap_or("replay").to_string();
         let kind = v["signature"].as_str().and_then(|s| s.rsplit('|').next()).unwrap_or("replay").to_string();
-        let case = Case { ft: &ft, schema: &schema, value: &value, desc: &desc, mutation_kind: &kind, recipe: None };
+        let case = Case {
+            ft: &ft,
+            schema: &schema,
+            value: &value,
+            desc: &|| desc.clone(),
+            mutation_kind: &|| kind.clone(),
+            mutated: false,
+            recipe: None,
+        };
         run_case(&case, entry, &mut t);
         t.merge_into(&mut run);
         run.finish();
@@ -281,8 +304,9 @@ fn main() {
                     ft: &p.ft,
                     schema: &schema,
                     value: &p.value,
-                    desc: &desc,
-                    mutation_kind: &format!("budget:{}", p.family),
+                    desc: &|| desc.clone(),
+                    mutation_kind: &|| format!("budget:{}", p.family),
+                    mutated: false,
                     recipe: Some(json!({"probe": p.name})),
                 };
                 run_case(&case, entry, &mut t);
@@ -320,7 +344,7 @@ fn main() {
         "type": "Map({\"a\": I64, \"b\": Option(Vector)})",
         "skeleton": skeleton(&grammar::keyed(Ft::I64, Ft::Vector)),
         "valid_values": values::valid_values(&grammar::keyed(Ft::I64, Ft::Vector)).iter().map(|v| format!("{v:?}")).collect::<Vec<_>>(),
-        "mutations_of_first_value": values::mutations(&values::valid_values(&grammar::keyed(Ft::I64, Ft::Vector))[1]).len(),
+        "single_mutations_of_second_value": values::mutations(&values::valid_values(&grammar::keyed(Ft::I64, Ft::Vector))[1], &values::aliens()).len(),
     }));
     run.rule(if thorough {
         "FieldType grammar {Bool,I64,U64,F64,F32,Bytes,Text,Json,Vector; Option(T); Array([]); Array([T]); Array([T,U]); wildcard Map with Text/I64/Bytes key; keyed Map {a:T,b:Option(U)}}: depth 1 and 2 complete (9 + 208 types); depth 3 = unary constructors over all 208 depth-2 types + binary constructors over ALL pairs of depth<=2 types touching depth 2; depth 4 = unary constructors over the 1190 narrow depth-3 types + binary constructors over pairs of the 15 representative types {I64,F32,Vector,Json,Bytes; Option(I64), Array([F32]), Array([I64,Vector]), Map{i64*:Json}, {a:F32,b:Option(I64)}; the same five constructors one level up} touching depth 3"
